@@ -35,7 +35,9 @@ def write(here, check, tier, vseed, agg, wall, n_viol, hashseeds, seams_seen, kn
             "process boundary -> SimProcess reset of Configuration / logging handlers / cwd / env"]
     zero_probes = []
     cov = {
-        "evaluations": int(done_runs),
+        "evaluations": int(done_runs + agg.subcases),
+        "runs": int(done_runs),
+        "enumerated_subcases": int(agg.subcases),
         "distinct_nontrivial": len(agg.nontrivial),
         "rule": RULE[check],
         "samples": agg.samples[:3],
